@@ -315,7 +315,14 @@ class Check:
         return r
 
     def pv(self, args, label=None, timeout=3600):
+        if getattr(self, "hang_seen", False):
+            # the code under test hangs (reported): every further harness run would wait for its deadlines again
+            log("[pv] %s skipped: a hang was already reported in this run" % (label or args[0]))
+            return [], {"evaluations": 0, "distinct": 0, "distinct_nontrivial": 0, "violations": 0, "samples": [], "label": label or args[0],
+                        "extra": {"skipped": "a hang was already reported"}}
         viols, summary = run_pv(args + ["--replay-dir", self.replay_dir, "--seed", self.seed], timeout=timeout)
+        if any(v.get("kind") == "hang" for v in viols):
+            self.hang_seen = True
         self.viols += viols
         summary["label"] = label or args[0]
         self.summaries.append(summary)
